@@ -283,7 +283,7 @@ def resolve_fn_value(F, t, kind):
 
 def table_func_new(F, chk, body, kind, dname, rule):
     subject = ("arg", 1, body["locals"][1]["name"])
-    paths = mir.walk(body)
+    paths = mir.walk_inline(body, F)        # a private helper holding the selection match is walked in context
     table = {}
     rejects = 0
     const_leaves = {}
